@@ -446,6 +446,11 @@ fn jobject_to_choice(obj: &Map<String, serde_json::Value>) -> Result<Rc<dyn RTOb
         .ok_or_else(|| bad_json("originalThreadIndex"))? as usize;
     let path_string_on_choice = expect_str(field("targetPath")?, "targetPath")?;
     let choice_tags = jarray_to_tags(obj)?;
+    // Written only for a pending fallback choice (absent in older saves).
+    let is_invisible_default = obj
+        .get("isInvisibleDefault")
+        .and_then(|v| v.as_bool())
+        .unwrap_or(false);
 
     Ok(Rc::new(Choice::new_from_json(
         path_string_on_choice,
@@ -454,6 +459,7 @@ fn jobject_to_choice(obj: &Map<String, serde_json::Value>) -> Result<Rc<dyn RTOb
         index,
         original_thread_index,
         choice_tags,
+        is_invisible_default,
     )))
 }
 
